@@ -49,7 +49,7 @@ type leaf3 struct {
 }
 
 func (l leaf3) centre() kit.V3 { return l.s.Centre().Add(l.shift) }
-func (l leaf3) size() float64   { return l.s.Size() }
+func (l leaf3) size() float64  { return l.s.Size() }
 func (l leaf3) ref(p kit.V3) (float64, kit.V3, kit.V3) {
 	r := l.s.RefSDF(p.Sub(l.shift))
 	n := r.Normal
@@ -79,7 +79,7 @@ func up(v kit.V2) kit.V3   { return kit.V3{v[0], v[1], 0} }
 func down(v kit.V3) kit.V2 { return kit.V2{v[0], v[1]} }
 
 func (l leaf2) centre() kit.V3 { return up(l.s.Centre()) }
-func (l leaf2) size() float64   { return l.s.Size() }
+func (l leaf2) size() float64  { return l.s.Size() }
 func (l leaf2) ref(p kit.V3) (float64, kit.V3, kit.V3) {
 	r := l.s.RefSDF(down(p))
 	n := r.Normal
